@@ -280,7 +280,7 @@ def run_batch(spec):
                     closer = pt[0].startswith("wdv-call-")
                     for partner in (["touch", "rmroot", "none"] if closer else PARTNERS):
                         nth = r.choice([1, 1, 2])
-                        ev = r.random() < 0.5
+                        ev = r.choice([False, True, "mkdirs"])
                         out = apireal.hold_case(ins, led, spec["emitter"], pt, nth, partner, ev)
                         judge(b, out, out["log"], {"hold": list(map(str, pt)), "nth": nth, "partner": partner, "event": ev},
                               {"kind": "hold1", "emitter": spec["emitter"], "point": list(pt), "nth": nth, "partner": partner, "event": ev})
